@@ -33,6 +33,11 @@ def race_programs(draw):
     cfg = {'msg': draw(st.booleans()), 'frag': frag, 'rbuf': draw(gen.rbufs()), 'none_empty': draw(st.booleans())}
     if lease:
         cfg['lease'] = lease
+    connect_race = draw(st.integers(0, 3)) == 0
+    if connect_race:
+        # requests issued while connect() is still waiting for the transport provider
+        cfg['connect_async'] = True
+        cfg['provider_delay'] = [draw(st.sampled_from([1, 2, 4]))]
     n = draw(st.integers(1, 5))
     inter = []
     for i in range(n):
@@ -87,6 +92,9 @@ def race_programs(draw):
     chunks = draw(st.lists(st.one_of(single.map(lambda o: [o]), single.map(lambda o: [o]), macro), min_size=2, max_size=18))
     ops = [list(o) for ch in chunks for o in ch]
     ops.extend([['start']] * max(0, n - sum(1 for o in ops if o[0] == 'start')))
+    if connect_race:
+        k = draw(st.integers(1, 3))
+        ops = [['start']] * k + [['tick', 1]] + ops[:3] + [['await_connect'], ['tick', 2]] + ops[3:]
     return {'cfg': cfg, 'inter': inter, 'ops': ops, 'gen': 'race'}
 
 
@@ -130,7 +138,7 @@ def prop(program):
     fragm = any(e['f'].get('follows') for side in ('c', 's') for e in tr.world.wire.get(side, []))
     lease = bool(p['cfg'].get('lease'))
     info['nt'] = has_cancel or has_err or fragm or lease
-    info['classes'] = ['gen=' + p.get('gen', '?'), 'cancel=%s' % has_cancel, 'app_error=%s' % has_err,
+    info['classes'] = ['gen=' + p.get('gen', '?'), 'connect_race=%s' % bool(p['cfg'].get('connect_async')), 'cancel=%s' % has_cancel, 'app_error=%s' % has_err,
                        'fragmentation=%s' % fragm, 'lease=%s' % lease, 'quiescent=%s' % tr.quiet]
     return vs
 
